@@ -365,7 +365,7 @@ func faultBody(s *vsched.Sched, p Param) {
 		// an application that keeps issuing calls more often than the timeout while the peer is
 		// silent: the client must still notice the dead link (the read deadline must be armed)
 		s.Go("poller", func() {
-			for i := 0; i < 12 && !returned("ret-P"); i++ {
+			for i := 0; i < 25 && !returned("ret-P"); i++ { // keeps polling up to the horizon
 				time.Sleep(time.Second)
 				i := i
 				s.Go(fmt.Sprintf("poll-%d", i), func() { cli.Echo(context.Background(), 80+i) })
